@@ -745,9 +745,9 @@ def c_event(nm, ev):
         return f"Fe (ResultRetrievalRequest {nm.n('j:' + ev['job'])} {c_ds(nm, ev['ds'])})"
     if op == "stop":
         return "Fe ShutdownRequest"
-    rp = ev["report"]
-    if op != "deliver" or rp is None:
+    if op != "deliver" or ev.get("report") is None:
         raise ValueError("no model event for " + op)
+    rp = ev["report"]
     rs = clist([f"({c_ds(nm, d)}, {c_bytes(b)})" for d, b in rp["results"]])
     return f"Ctl {nm.n('j:' + ev['sock'])} (mkReport {nm.n('j:' + rp['job'])} {copt(rp['status'], cstr)} {cZ(rp['ts'])} {rs})"
 
@@ -1317,7 +1317,7 @@ def evaluate(events):
 
 def model_view(revents, obs):
     """the history as the gateway (and the model) sees it: calls of the Reporter are not events of the gateway"""
-    hidden = ("rsend", "noop")
+    hidden = ("rsend", "noop", "rdeliver")      # rdeliver: only left unresolved behind the event at which an exception ended the history
     return [e for e in revents if e["op"] not in hidden], [o for e, o in zip(revents, obs) if e["op"] not in hidden]
 
 
@@ -1389,7 +1389,7 @@ def classify(events, obs, res):
 
 def run(ctx, res):
     res.rule = ("a history (submits with a scripted id source -- id-like strings or real uuid values: repeats, collision runs, look-alikes, exhaustion --, controller reports on per-job sockets -- in order, swapped, shuffled, reversed, duplicated, "
-                "after shutdown, before the job exists --, progress/result queries incl. unknown ids, final probes of every job and dataset) counts as "
+                "after shutdown, before the job exists; or produced by the REAL Reporter under a scripted clock and delivered at once / lagging / in bursts / reordered / duplicated / never --, progress/result queries incl. unknown ids, final probes of every job and dataset) counts as "
                 "non-trivial when at least one report was handled by handle_controller and a frontend query was answered after it; distinct = distinct event lists")
     streams = []
     for h in corpus():
